@@ -65,6 +65,19 @@ func genCase(t *rapid.T) sigCase {
 				break
 			}
 		}
+		for _, e := range a.EPs {
+			// (the signed payload is the concatenation of the address strings: a list of empty strings signs like no list)
+			if len(strings.Join(e.Addrs, "")) > 0 {
+				kinds = append(kinds, "ep-clear-addrs")
+			} else if len(strings.Join(a.Addrs, "")) > 0 {
+				kinds = append(kinds, "ep-fill-addrs")
+			}
+			if len(e.Metadata) > 0 {
+				kinds = append(kinds, "ep-clear-metadata")
+			} else if len(a.Metadata) > 0 {
+				kinds = append(kinds, "ep-fill-metadata")
+			}
+		}
 	}
 	m := mutation{Kind: rapid.SampledFrom(kinds).Draw(t, "mutation"), Target: -1}
 	m.Pos = rapid.IntRange(0, 1<<20).Draw(t, "pos")
@@ -282,6 +295,48 @@ func runCase(c sigCase) pbt.Result {
 	case "ep-metadata":
 		p := &ad.ExtendedProvider.Providers[m.Index]
 		p.Metadata = flipNonEmpty(p.Metadata, m.Pos, m.Bit)
+	case "ep-clear-addrs", "ep-fill-addrs", "ep-clear-metadata", "ep-fill-metadata":
+		// a signed value removed from an entry, or an omitted one filled in with the advertisement's own value
+		// (the main provider's entry first, when it qualifies)
+		ps := ad.ExtendedProvider.Providers
+		pick := -1
+		for k := 0; k < 2*len(ps) && pick < 0; k++ {
+			i := (m.Index + k) % len(ps)
+			if k < len(ps) && ps[i].ID != ad.Provider {
+				continue // first pass: only the main provider's entry
+			}
+			switch m.Kind {
+			case "ep-clear-addrs":
+				if len(strings.Join(ps[i].Addresses, "")) > 0 {
+					pick = i
+				}
+			case "ep-fill-addrs":
+				if len(strings.Join(ps[i].Addresses, "")) == 0 && len(strings.Join(ad.Addresses, "")) > 0 {
+					pick = i
+				}
+			case "ep-clear-metadata":
+				if len(ps[i].Metadata) > 0 {
+					pick = i
+				}
+			case "ep-fill-metadata":
+				if len(ps[i].Metadata) == 0 {
+					pick = i
+				}
+			}
+		}
+		if pick < 0 {
+			return pbt.Result{Skip: true}
+		}
+		switch m.Kind {
+		case "ep-clear-addrs":
+			ps[pick].Addresses = nil
+		case "ep-fill-addrs":
+			ps[pick].Addresses = append([]string(nil), ad.Addresses...)
+		case "ep-clear-metadata":
+			ps[pick].Metadata = nil
+		case "ep-fill-metadata":
+			ps[pick].Metadata = append([]byte(nil), ad.Metadata...)
+		}
 	case "attach-ep":
 		// an extended-provider list attached after signing (the ad signature does not cover it): entries
 		// that nobody signed for this ad, with or without the main provider, also on removal ads
@@ -415,7 +470,7 @@ func merge(base, f pbt.Result) pbt.Result {
 
 func TestC05_SignVerify(t *testing.T) {
 	pbt.Run(t, pbt.Config{Prop: "C05", Unit: "TestC05_SignVerify",
-		Rule:        "advertisements over all combinations of previous link, entries/no-entries link, 0..5 addresses, metadata 0..1024 B, context ID 0..64 B, removal flag (without extended providers), 0..4 extended providers (main provider present or absent, override on/off), ad signed by the provider's or a separate publisher key of any key type; one mutation: each signed value changed to a different value, key / payload / signature bytes of the ad envelope or of an entry envelope edited through the protobuf, a raw bit flip of an envelope, an entry signed by a key that is not the named identity's, the main entry re-signed by another key; then none / DAG-JSON / DAG-CBOR round trip (through the node prototype or through BytesToAdvertisement); an unmutated advertisement with extended providers is also edited and signed again; oracle: VerifySignature returns the signer's peer ID iff nothing was altered, the main provider is listed when there are entries and every entry is signed by the named identity's key (ad signer for the main entry). Non-trivial: mutated or mis-keyed or main provider absent; distinct by case.",
+		Rule:        "advertisements over all combinations of previous link, entries/no-entries link, 0..5 addresses, metadata 0..1024 B, context ID 0..64 B, removal flag (without extended providers), 0..4 extended providers (main provider present or absent, override on/off), ad signed by the provider's or a separate publisher key of any key type; one mutation: each signed value changed to a different value (also: an entry's addresses or metadata removed, or omitted ones filled in with the advertisement's own, where the main provider's entry repeats or omits the advertisement's values), key / payload / signature bytes of the ad envelope or of an entry envelope edited through the protobuf, a raw bit flip of an envelope, an entry signed by a key that is not the named identity's, the main entry re-signed by another key; then none / DAG-JSON / DAG-CBOR round trip (through the node prototype or through BytesToAdvertisement); an unmutated advertisement with extended providers is also edited and signed again; oracle: VerifySignature returns the signer's peer ID iff nothing was altered, the main provider is listed when there are entries and every entry is signed by the named identity's key (ad signer for the main entry). Non-trivial: mutated or mis-keyed or main provider absent; distinct by case.",
 		Assumptions: []string{"a raw bit flip that leaves the four parsed envelope fields unchanged is not an alteration", "one value is changed at a time (undelimited concatenation, per the property's quantifier)"},
 	}, genCase, runCase)
 }
